@@ -13,7 +13,7 @@ while args and args[0].startswith("--"):
 head = subprocess.check_output(["git", "-C", "/repo", "rev-parse", "HEAD"], text=True).strip()
 repos = []
 for i in range(jobs):
-    r = "/tmp/seedrepo" + ("" if i == 0 else str(i))
+    r = os.environ.get("PRUN_BASE", "/tmp/seedrepo") + ("" if i == 0 else str(i))
     if not os.path.exists(r):
         subprocess.check_call(["git", "-C", "/repo", "worktree", "add", "-q", "--detach", r, head])
     subprocess.check_call(["git", "-C", r, "checkout", "-q", "--", "."])
